@@ -26,6 +26,32 @@ mod shim;
 use shard::{ShardCfg, ShardOut};
 use std::path::PathBuf;
 
+/// A logger that formats every record (which is what evaluates the arguments of sodg's `trace!`/`debug!` calls) and
+/// keeps nothing. Installed in the odd-numbered shards: the answers of the graph must not depend on whether the
+/// application has logging switched on, and the code inside the log statements is run under the monitors as well.
+struct Sink;
+static LOGGED: std::sync::atomic::AtomicU64 = std::sync::atomic::AtomicU64::new(0);
+impl log::Log for Sink {
+    fn enabled(&self, _: &log::Metadata) -> bool {
+        true
+    }
+    fn log(&self, r: &log::Record) {
+        use std::fmt::Write;
+        struct Null(usize);
+        impl Write for Null {
+            fn write_str(&mut self, s: &str) -> std::fmt::Result {
+                self.0 += s.len();
+                Ok(())
+            }
+        }
+        let mut n = Null(0);
+        let _ = write!(n, "{}", r.args());
+        LOGGED.fetch_add(1, std::sync::atomic::Ordering::Relaxed);
+    }
+    fn flush(&self) {}
+}
+static SINK: Sink = Sink;
+
 fn arg(args: &[String], name: &str) -> Option<String> {
     args.iter().position(|a| a == name).and_then(|i| args.get(i + 1).cloned())
 }
@@ -50,6 +76,9 @@ fn main() {
             };
             let _ = std::fs::create_dir_all(&cfg.work);
             let mut out = ShardOut::new();
+            if cfg.shard % 2 == 1 && log::set_logger(&SINK).is_ok() {
+                log::set_max_level(log::LevelFilter::Trace);
+            }
             match cfg.prop.as_str() {
                 "C01" | "C02" | "C03" | "C04" | "C05" | "C06" | "C08" | "C10" | "C13" | "C18" | "C20" => {
                     props_hist::run_shard(&cfg, &mut out)
@@ -67,6 +96,10 @@ fn main() {
                     eprintln!("unknown property {p}");
                     std::process::exit(3);
                 }
+            }
+            let logged = LOGGED.load(std::sync::atomic::Ordering::Relaxed);
+            if logged > 0 {
+                out.counters.add("log.records-formatted(trace level switched on in odd shards)", logged);
             }
             let js = out.to_json(&cfg).render();
             match arg(&args, "--out") {
